@@ -191,6 +191,10 @@ def resume_pairing(cx):
         _after(cx, f, rej, ["Progress::snapshot_failure"], "snapstatus:failure", "snapshot failure clears the pending snapshot index")
         ws = [s for s in cx.prog.writes.get("Progress.pending_request_snapshot", []) if s.fn is f and "stmt" in s.data and write_value(cx, s) == ("int", 0)]
         cx.check(bool(ws), "snapstatus:clear-request", "snapshot status clears the follower's snapshot request")
+        gss = cx.pg(f)
+        wb = {w.block for w in ws}
+        okc, nc = gss.after_edge_must_pass(lambda lits: any(in_snap(l) for l in lits), lambda b: b in wb)
+        cx.check(okc and nc >= 1, "snapstatus:clear-request:always", "... on BOTH outcomes (a request kept after a failed snapshot makes the leader push another snapshot the follower no longer asks for)")
     # --- unreachable
     ur = arm_fns(cx, "MsgUnreachable")
     cx.check(bool(ur), "unreachable:handler", "a MsgUnreachable handler exists")
@@ -282,6 +286,27 @@ def broadcast_targets(cx):
             cx.check(okf, fname + ":targets", "%s reaches every tracked peer except the node itself (no condition besides `id != self.id`)" % fname, sends[0] if sends else None)
         n += 1
     cx.check(n >= 2, "floor", "both broadcasts were found")
+
+
+@obligation("FLOW.window_writers", ["C13", "C20"], floor=4, kind="who-may-write",
+            why="the ring arithmetic of the in-flight window (wrap of start, count) lives in add / free_to / reset / set_cap; a second place that moves start or count without the wrap indexes past the buffer")
+def window_writers(cx):
+    allowed = {"add", "free_to", "reset", "set_cap", "new", "maybe_free_buffer"}
+    n = 0
+    for fk in ("Inflights.start", "Inflights.count"):
+        for s in cx.prog.writes.get(fk, []):
+            if s.fn.impl_trait:
+                continue
+            ok = s.fn.name in allowed and (s.fn.impl_adt or "").endswith("Inflights")
+            cx.check(ok, cx.site_key(s, "write:" + fk), "%s is written only by Inflights::{add, free_to, reset, set_cap} (found in %s)" % (fk, fn_name(s.fn)), s)
+            n += 1
+    ff = cx.fn("Inflights::free_first_one")
+    fto = [c for c in cx.prog.all_calls if c.fn is ff and c.data["callee"].endswith("Inflights::free_to")]
+    cx.check(len(fto) == 1, "free_first_one", "free_first_one() frees through free_to(first)")
+    for c in fto:
+        a = call_args(cx, c)[1]
+        cx.check(any(x[0] == "field" and x[2] == "Inflights.start" for x in walk(a)) and any(x[0] == "field" and x[2] == "Inflights.buffer" for x in walk(a)), "free_first_one:arg", "free_first_one() passes buffer[start] (found %s)" % show(a)[:80], c)
+    cx.check(n >= 4, "floor", "window writers were found")
 
 
 @obligation("FLOW.resume_sources", ["C13"], floor=3, kind="who-may-call + guard",
